@@ -1,0 +1,5 @@
+//go:build !verif
+
+package blockchain
+
+func verifDelay(point string, height int64) {}
